@@ -189,8 +189,15 @@ impl Pipeline {
             let mut collector = ChunkCollector::new();
             let continue_processing = self.operators[i].push(current_chunk, &mut collector)?;
 
-            if !continue_processing || collector.is_empty() {
+            if collector.is_empty() {
                 return Ok(continue_processing);
+            }
+            if !continue_processing {
+                // The operator asked to stop (e.g. LIMIT reached) but still produced its last
+                // rows: they must reach the downstream operators before terminating.
+                let rest = collector.into_single_chunk();
+                self.push_through_from(rest, i + 1)?;
+                return Ok(false);
             }
 
             // Merge collected chunks for next operator
@@ -244,8 +251,15 @@ impl Pipeline {
             let mut collector = ChunkCollector::new();
             let continue_processing = self.operators[i].push(current_chunk, &mut collector)?;
 
-            if !continue_processing || collector.is_empty() {
+            if collector.is_empty() {
                 return Ok(continue_processing);
+            }
+            if !continue_processing {
+                // The operator asked to stop (e.g. LIMIT reached) but still produced its last
+                // rows: they must reach the downstream operators before terminating.
+                let rest = collector.into_single_chunk();
+                self.push_through_from(rest, i + 1)?;
+                return Ok(false);
             }
 
             current_chunk = collector.into_single_chunk();
